@@ -48,6 +48,58 @@ def rand_volume(rng, rational=None, maxp=3, dim=3, max_interior=2, allow_range=T
                 su=sizes[0], sv=sizes[1], sw=sizes[2], P=P, dim=dim)
 
 
+def mixed_sign_shape(rng):
+    """a rational line / bilinear patch (degree 1, clamped) whose weight function W = 1 + (w - 1) u vanishes at u0 = 1/(1 - w),
+    w < 0: (shape, parameters with W = 0, parameters with W != 0)"""
+    w = rng.choice([F(-1), F(-3), F(-7)])      # u0 = 1/2, 1/4, 1/8: W(u0) is exactly 0 in doubles too (float companion)
+    u0 = 1 / (1 - w)
+    pt = lambda dim: [F(rng.randint(-6, 6), rng.choice([1, 2])) for _ in range(dim)]
+    if rng.random() < .5:
+        dim = rng.choice([2, 3])
+        a, b = pt(dim), pt(dim)
+        d = dict(kind='curve', rat=True, p=1, kv=[F(0), F(0), F(1), F(1)], n=2, P=[a + [F(1)], [x * w for x in b] + [w]], dim=dim)
+        return d, [u0], [u0 / 2]
+    a, b, c_, e = pt(3), pt(3), pt(3), pt(3)
+    # weights 1, 1 (u = 0 row) and w, w (u = 1 row): W(u, v) = 1 + (w - 1) u for every v
+    P = [a + [F(1)], b + [F(1)], [x * w for x in c_] + [w], [x * w for x in e] + [w]]
+    d = dict(kind='surface', rat=True, pu=1, pv=1, kvu=[F(0), F(0), F(1), F(1)], kvv=[F(0), F(0), F(1), F(1)], su=2, sv=2, P=P, dim=3)
+    v = F(rng.randint(0, 4), 4)
+    return d, [u0, v], [u0 / 2, v]
+
+
+def empty_last_shape(rng):
+    """(definition, index of the direction with the empty last span)"""
+    r = rng.random()
+    rat = rng.random() < .4
+    if r < .5:
+        p = rng.randint(1, 4)
+        kv, n = G.knots_empty_last(rng, p)
+        P = G.points(rng, n, rng.choice([2, 3]))
+        if rat:
+            P = G.homogeneous(P, G.weights(rng, n))
+        return dict(kind='curve', rat=rat, p=p, kv=kv, n=n, P=P, dim=len(P[0]) - (1 if rat else 0)), 0
+    nd = 2 if r < .85 else 3
+    k = rng.randrange(nd)
+    degs, kvs, sizes = [], [], []
+    for i in range(nd):
+        p = rng.randint(1, 3 if nd == 2 else 2)
+        if i == k:
+            kv, n = G.knots_empty_last(rng, p)
+        else:
+            kv, n = G.knots(rng, p, max_interior=2 if nd == 2 else 1, allow_range=False, clamped=rng.random() < .7)
+        degs.append(p); kvs.append(kv); sizes.append(n)
+    tot = 1
+    for n in sizes:
+        tot *= n
+    P = G.points(rng, tot, 3)
+    if rat:
+        P = G.homogeneous(P, G.weights(rng, tot))
+    if nd == 2:
+        return dict(kind='surface', rat=rat, pu=degs[0], pv=degs[1], kvu=kvs[0], kvv=kvs[1], su=sizes[0], sv=sizes[1], P=P, dim=3), k
+    return dict(kind='volume', rat=rat, pu=degs[0], pv=degs[1], pw=degs[2], kvu=kvs[0], kvv=kvs[1], kvw=kvs[2],
+                su=sizes[0], sv=sizes[1], sw=sizes[2], P=P, dim=3), k
+
+
 def unit_range(kv):
     return kv[0] == 0 and kv[-1] == 1
 
